@@ -447,7 +447,9 @@ func (res *CheckResult) checkSource(source parser.Source) {
 		}
 
 	case *parser.SourceOverdraft:
+		isWorld := false
 		if accountLiteral, ok := source.Address.(*parser.AccountLiteral); ok && accountLiteral.IsWorld() {
+			isWorld = true
 			res.Diagnostics = append(res.Diagnostics, Diagnostic{
 				Range: accountLiteral.Range,
 				Kind:  &InvalidWorldOverdraft{},
@@ -458,7 +460,8 @@ func (res *CheckResult) checkSource(source parser.Source) {
 			res.unboundedAccountInSend = source.Address
 		}
 
-		if res.unboundedSend {
+		// a bounded overdraft is a valid source of a "send all" statement
+		if res.unboundedSend && (source.Bounded == nil || isWorld) {
 			res.Diagnostics = append(res.Diagnostics, Diagnostic{
 				Range: source.Address.GetRange(),
 				Kind:  &InvalidUnboundedAccount{},
